@@ -18,12 +18,12 @@ def prove(tier, seed):
 
 
 def _bilinear(out, tier):
-    """E1-array/bilinear: the full projectors equal (1/p!) sum_sigma [sgn] W_sigma for all d (p = 2, 3; 4 in the thorough tier), and the
+    """E1-array/bilinear: the full projectors equal (1/p!) sum_sigma [sgn] W_sigma for all d (p = 2..4; 5 in the thorough tier; lemmas for p = 2, 3; 4 in the thorough tier), and the
     statements of the property as lemmas over that postcondition"""
     from props import C18_bilinear as B
 
-    pmax = 4 if tier == "thorough" else 3
-    recs = B.records(pmax=pmax) + B.lemmas(pmax=3)
+    thorough = tier == "thorough"
+    recs = B.records(pmax=5 if thorough else 4) + B.lemmas(pmax=4 if thorough else 3)
     for x in recs:
         if x["status"] != "discharged" and x["function"] in B.REL:
             kind = "sym" if x["function"].startswith("sym") else "asym"
